@@ -19,12 +19,39 @@ pub fn run(ctx: &Ctx) -> Report {
         Plan { fam: "UNI", styles: two.clone(), debug: vec![false, true], stride: 1 },
     ];
     run_plans(ctx, &mut rep, "C26", &plans, &|i| i.err_kind.is_some());
+    // characters in front of the source that no statement describes: every format (Cf-like), space and control character a text file can
+    // start with (BOM, zero-width space / joiners, NBSP, line and paragraph separators, NEL, VT, FF, soft hyphen, direction marks ...), alone
+    // and followed by a newline, before every single-fault program: where the parser takes the text, the error spans must fit the text as given
+    let f = families();
+    let nf = f.len("F1");
+    let astride = ctx.pick(4u64, 1u64);
+    let r = sweep(ctx, nf * AFFIX.len() as u64 * 2, 64, |k, acc| {
+        let (i, a, nl) = (k / (AFFIX.len() as u64 * 2), (k / 2) as usize % AFFIX.len(), k % 2 == 1);
+        if i % astride != 0 { return; }
+        let Some(prog) = f.get("F1", i) else { return };
+        let prefix = format!("{}{}", AFFIX[a], if nl { "\n" } else { "" });
+        let mut out = vec![];
+        let (parsed, errored) = super::asmcheck::check_affixed_spans(&prog, &crate::gen::prog::Style::plain(), &prefix, &mut out);
+        acc.evals += 1; acc.transitions += 2; acc.count("affixed_sources", 1); if parsed { acc.count("affixed_sources_parsed", 1); } if errored { acc.count("affixed_sources_with_error", 1); acc.nontrivial += 1; }
+        for fl in out { if fl.prop == "C26" { acc.violation(fl.sig, format!("affix:{i}:{a}:{}", nl as u8), format!("source prefixed with U+{:04X}{}: {}", AFFIX[a].chars().next().map(|c| c as u32).unwrap_or(0), if nl { " and a newline" } else { "" }, fl.detail)); } }
+    });
+    rep.absorb(r);
     super::c20::link_error_spans(ctx, &mut rep);
     rep.require(rep.acc.get("rejected") > 1000, "assembling errors were produced");
     rep.require(rep.acc.get("link_errors") > 50, "link errors were produced");
     rep
 }
+/// characters that may precede the first line of a text file without being part of any statement
+pub const AFFIX: [&str; 26] = ["\u{FEFF}", "\u{200B}", "\u{200C}", "\u{200D}", "\u{2060}", "\u{00A0}", "\u{2028}", "\u{2029}", "\u{0085}", "\u{000B}", "\u{000C}", "\u{00AD}", "\u{200E}", "\u{200F}", "\u{202A}", "\u{202F}", "\u{3000}", "\u{1680}", "\u{2003}", "\u{0000}", "\u{001A}", "\u{001B}", "\u{007F}", "\u{FFFE}", "\u{FFFD}", "\u{FEFF}\u{FEFF}"];
 pub fn replay(case: &str) -> Option<String> {
+    if let Some(r) = case.strip_prefix("affix:") {
+        let p: Vec<u64> = r.split(':').filter_map(|x| x.parse().ok()).collect();
+        let prog = families().get("F1", *p.first()?)?;
+        let prefix = format!("{}{}", AFFIX.get(*p.get(1)? as usize)?, if *p.get(2)? == 1 { "\n" } else { "" });
+        let mut out = vec![];
+        super::asmcheck::check_affixed_spans(&prog, &crate::gen::prog::Style::plain(), &prefix, &mut out);
+        return out.into_iter().find(|f| f.prop == "C26").map(|f| format!("[{}] {}", f.sig, f.detail));
+    }
     if case.starts_with("link:") { return super::c20::replay_link_span(case); }
     replay_case("C26", case)
 }
